@@ -577,12 +577,12 @@ SPARSE_KINDS = ["single-finite", "sparse-levels", "plateau-nan-region", "indicat
 
 def gen_sparse_cases(r, big):
     out = []
-    strategies = r.sample(RANK_BASED, 5) if not big else [s_ for s_ in RANK_BASED for _ in range(3)]
+    strategies = r.sample(RANK_BASED, 5) if not big else [s_ for s_ in RANK_BASED for _ in range(2)]
     for i, s_ in enumerate(strategies):
         c = gen_evo(r, s_, big)
         c.update(solver="evo", kind=SPARSE_KINDS[i % len(SPARSE_KINDS)] if i < 8 else r.choice(SPARSE_KINDS), steps=max(3, c["steps"]), family="sparse")
         out.append(c)
-    for i in range(3 if not big else 16):
+    for i in range(3 if not big else 8):
         c = gen_cem(r, big)
         c.update(solver="cem", kind=SPARSE_KINDS[i % len(SPARSE_KINDS)] if i < 8 else r.choice(SPARSE_KINDS), family="sparse")
         out.append(c)
